@@ -2,11 +2,13 @@
 # re-runs every seeded change of /verif/seeded against the quick check of its property (and extra checks given in
 # seeded/<id>/also.txt), one after the other on /repo; output in the format tools/import_mutants.py reads
 out=${1:-/verif/work/mutants_final.txt}
-: > "$out"
+# RESUME=1: keep the output file and skip the changes it already lists
+[ -n "$RESUME" ] || : > "$out"
 for d in /verif/seeded/C*-*; do
   id=$(basename "$d"); prop=${id%%-*}; mi=${id##*-}
-  tag="$prop/m${mi:1}"; [ "${mi:0:1}" = "b" ] && tag="B$prop/m${mi:1}"
+  tag="$prop/m${mi:1}"; [ "${mi:0:1}" = "b" ] && tag="B$prop/m${mi:1}"; [ "${mi:0:1}" = "c" ] && tag="C$prop/m${mi:1}"
   also=""; [ -f "$d/also.txt" ] && also=$(cat "$d/also.txt")
+  if [ -n "$RESUME" ] && grep -q "^### $tag\$" "$out"; then continue; fi
   echo "### $tag" >> "$out"
   /verif/bin/mutant "$d/patch.diff" $prop $also 2>&1 | tail -4 >> "$out"
 done
